@@ -834,9 +834,29 @@ fn c08(tier: Tier, seed: u64) -> i32 {
         }
         AdaptScenario { prop: "C08".into(), cfg }
     });
+    let n2 = ctx.n(200, 20_000);
+    ctx.run_batch("lowrank_exact", "low-rank presets (NUTS and MCLMC) with eigval_cutoff just above 1 (every direction is kept: the covariance 'fits the rank') on correlated Gaussians (dimension 2..10, eigenvalues 0.05..20 in a random orthonormal basis, seeded mean and start), num_tune 150..400: once warmup is over, the whitened gradient must equal minus the whitened position (fisher_distance = |y + grad_y|^2 <= 1e-8 (1 + |y|^2)) on every draw", n2, |rs, i| {
+        let mut r = Prng::sub(rs, "lowrank_exact");
+        let d = r.usize_in(2, 10);
+        let eig: Vec<f64> = (0..d).map(|_| r.log_uniform(0.05, 20.0)).collect();
+        let mu: Vec<f64> = (0..d).map(|_| r.uniform(-3.0, 3.0)).collect();
+        let (target, cov) = crate::density::dense_normal(&mut r, mu.clone(), &eig);
+        let nt = r.range(150, 400);
+        let kind = if i % 4 == 3 { crate::swarm::PresetKind::LowRankMclmc } else { crate::swarm::PresetKind::LowRankNuts };
+        let o = SwarmOpts { randomise_knobs: false, ..Default::default() };
+        let mut preset = crate::swarm::gen_preset(&mut r, kind, nt, 10, &o);
+        match &mut preset {
+            crate::chain::Preset::LowRankNuts(s) => { s.adapt_options.mass_matrix_options.eigval_cutoff = 1.00001; s.store_transformed = true; }
+            crate::chain::Preset::LowRankMclmc(s) => { s.adapt_options.mass_matrix_options.eigval_cutoff = 1.00001; s.store_transformed = true; }
+            _ => {}
+        }
+        let init: Vec<f64> = (0..d).map(|i| mu[i] + cov[i * d + i].sqrt() * r.uniform(-1.5, 1.5)).collect();
+        let cfg = crate::chain::ChainCfg { preset, target, faults: vec![], init, chain_seed: r.next_u64(), chain_id: 0, n_calls: nt + 10, keep_evals: false, max_evals: 5_000_000, reinit_at: None, observe_math: false };
+        AdaptScenario { prop: "C08lr".into(), cfg }
+    });
     ctx.finish("exploration", components_engine_a(), vec![
         "windows containing NaN/inf draws or gradients are not reachable through a chain (such states are never accepted) and are not fed to the estimators directly (that would be input generation, DESIGN.md §5 C08)".into(),
-        "low-rank exactness on covariances that fit the rank is not asserted (only finiteness/positivity), see DESIGN.md".into(),
+        "low-rank exactness is asserted with eigval_cutoff ~ 1 (all directions kept), as the repository's own integration test does; with the default cut-off 2 directions whose rescaled eigenvalue lies in (1/2, 2) are deliberately left unwhitened, so no exactness is demanded there".into(),
     ], json!({}))
 }
 
